@@ -105,6 +105,23 @@ impl<T> Sender<T> {
     pub fn try_reserve(&self) -> Result<real::Permit<'_, T>, error::TrySendError<()>> {
         self.inner.try_reserve()
     }
+    pub async fn reserve_many(&self, n: usize) -> Result<real::PermitIterator<'_, T>, error::SendError<()>> {
+        self.inner.reserve_many(n).await
+    }
+    pub fn try_reserve_many(&self, n: usize) -> Result<real::PermitIterator<'_, T>, error::TrySendError<()>> {
+        self.inner.try_reserve_many(n)
+    }
+    /// (the owned permit hands back tokio's own `Sender` when it is used; code that needs that value as this
+    /// crate's `Sender` does not compile against the shim - no such code exists in rsactor)
+    pub async fn reserve_owned(self) -> Result<real::OwnedPermit<T>, error::SendError<()>> {
+        self.inner.reserve_owned().await
+    }
+    pub fn try_reserve_owned(self) -> Result<real::OwnedPermit<T>, error::TrySendError<Self>> {
+        self.inner.try_reserve_owned().map_err(|e| match e {
+            error::TrySendError::Full(inner) => error::TrySendError::Full(Sender { inner }),
+            error::TrySendError::Closed(inner) => error::TrySendError::Closed(Sender { inner }),
+        })
+    }
     pub fn same_channel(&self, other: &Self) -> bool {
         self.inner.same_channel(&other.inner)
     }
